@@ -213,6 +213,8 @@ def run(tier, seed):
     tot_states = tot_trans = 0
     all_digests = []
     for status, res in run_pool("vx.checks.c15", "work_histories", rotate(units, seed)):
+        if status == "skipped":
+            continue
         if status != "ok":
             run.report({"signature": {"kind": status}, "what": f"worker failed: {res}", "case": {}})
             continue
